@@ -447,7 +447,7 @@ func sharedPointerValues() []interface{} {
 
 func init() {
 	Register(&Monitor{ID: "C16", Run: func(c *Ctx) {
-		c.Rule = "Go types assembled at random (reflect.StructOf/SliceOf/ArrayOf/MapOf/PtrTo) from bool, all int/uint widths, floats, string, []byte, [N]byte, slices, arrays, map[string]T, pointers, interface{}, nested and embedded structs with rename/omitempty/symbol/clob/sexp/- tags, annotation wrappers, Timestamp, Decimal, *Decimal, time.Time, big.Int, *big.Int; boundary-biased values; each through MarshalText/MarshalBinary (value and pointer), MarshalBinaryLST and Encoder/Decoder streams. Oracles: no panic/error on a supported shape; the bytes denote the value's Ion image under the independent decoder; Unmarshal into the same type gives an equal value (NaN=NaN, Timestamp/Decimal by Ion equivalence, time.Time by instant and offset, nil and empty slices equal); MarshalText is deterministic. Non-trivial: composite type or >= 2 fields with a non-zero value; distinct by (generated case, encoding)."
+		c.Rule = "Go types assembled at random (reflect.StructOf/SliceOf/ArrayOf/MapOf/PtrTo) from bool, all int/uint widths, floats, string, []byte, [N]byte, slices, arrays, map[string]T, pointers, interface{}, nested and embedded structs with rename/omitempty/symbol/clob/sexp/- tags, annotation wrappers, Timestamp, Decimal, *Decimal, time.Time, big.Int, *big.Int; boundary-biased values; each through MarshalText/MarshalBinary (value and pointer), MarshalBinaryLST, MarshalTo, NewEncoderOpts, NewBinaryEncoderLST, EncodeAs with the applicable hint and Encoder/Decoder streams; flat values with more than 10000 nil pointers, slices, maps and interfaces, and a Decoder stream of 10500 rows; ordinary Marshal calls after calls that failed half way (channel field, failing Marshaler, symbol missing from a fixed table). Oracles: no panic/error on a supported shape; the bytes denote the value's Ion image under the independent decoder; Unmarshal into the same type gives an equal value (NaN=NaN, Timestamp/Decimal by Ion equivalence, time.Time by instant and offset, nil and empty slices equal); MarshalText is deterministic. Non-trivial: composite type or >= 2 fields with a non-zero value; distinct by (generated case, encoding)."
 		c.Assume("interface{} values are restricted to the dynamic types Unmarshal itself produces; inside nested interface containers to those that Decode returns by value (ints, bools, []byte, containers)")
 		runC16(c)
 	}, Replay: func(c *Ctx, v *Violation) string {
